@@ -288,7 +288,7 @@ Print Assumptions C10_full_unguarded_refuted.
 
 (* ---- without the lock the property fails ----------------------------------- *)
 Theorem C10_unguarded_refuted :
-  nth 1%nat (results (run Unguarded 3 w1_graph w1_calls w1_sched)) [] = [RErr] /\
+  nth 1%nat (results (run Unguarded 3 w1_graph w1_calls w1_sched)) [] = [RUnlinked] /\
   result_solo 3 w1_graph 1 = ROk (UNode 1 [UNode 2 []]) /\
   results (run Unguarded 3 w1_graph [[1]] [0; 0; 0; 0; 0; 0; 0]%nat) = [[result_solo 3 w1_graph 1]].
 Proof. exact unguarded_refuted_root. Qed.
